@@ -66,6 +66,7 @@ type interp struct {
 	sentinels       map[*ssa.Global]bool
 	maxJoin         int
 	wrapSeen        bool
+	reduceTag       string // tag key naming the caller path of each disjunct during a call summary
 	retCap          int
 	bindFrame       *frameID
 	inlinedClosures map[*ssa.Function]bool
